@@ -5,71 +5,148 @@ import (
 	"strings"
 
 	"github.com/nspcc-dev/neo-go/pkg/core/block"
+	"github.com/nspcc-dev/neo-go/pkg/util"
 	ck "verifharness/chainkit"
 	"verifharness/vt"
 )
 
 const knownTransferLog = "refused-block-bumps-transfer-log-counter"
 
-// runNextHeaderMismatch reaches the storeBlock error return that follows the state computation: the node trusts
-// header N+1 (B's) and a header N+2 signed by the right validators but carrying a wrong PrevStateRoot (a header
-// alone cannot be checked against a state that does not exist yet). B is executed, its state root disagrees with
-// header N+2, B is refused. The property does not say B must be accepted here; it does say the refusal changes nothing.
-func runNextHeaderMismatch(w *world, cr Corruption, o *vt.Obs) error {
-	const name = "sr-next-header-mismatch"
-	prep := func(withPool bool) (*ck.Node, bool, error) {
-		n, err := w.startNode(1, withPool)
+// runNextHeaderMismatch reaches the storeBlock error return that follows the state computation. The node's header
+// chain runs ahead of its blocks: the real header of B (and, in the deeper variant, of B2), then a header W that is
+// signed by the right validators but carries a wrong PrevStateRoot (a header alone cannot be checked against a state
+// that does not exist yet), then ahead-1 more validly signed headers on top of W. The block R right below W (B, or B2
+// after B has gone in normally) is executed, its state root disagrees with W, R is refused. The refusal must change
+// nothing: heights, tips, full state dump, mempool, backend after a flush (against a twin that never saw R); a second
+// submission gives the same answer; a restart finds the same state.
+//
+//	ahead = number of known headers above R at the moment R is submitted (1: W is the last known header,
+//	        2 and 3: W is a middle header).
+//	Corr.X bit 8: R = B (0) or R = B2 (1); bit 9: headers submitted in one AddHeaders call or one by one.
+func runNextHeaderMismatch(w *world, cr Corruption, o *vt.Obs, name string, ahead int) error {
+	deep := (cr.X>>8)&1 == 1
+	batch := (cr.X>>9)&1 == 1
+	o.Label("class-next-header-stateroot")
+	o.Labelf("sr-next/ahead=%d/deep=%v", ahead, deep)
+
+	// The header chain the node is given.
+	var hdrs []*block.Header
+	add := func(h *block.Header) error {
+		hh, err := decHeader(encHeader(h), w.srih)
+		if err != nil {
+			return err
+		}
+		hdrs = append(hdrs, hh)
+		return nil
+	}
+	if err := add(&w.B.Header); err != nil {
+		return err
+	}
+	signer, prev, goodRoot := w.vals2, &w.B.Header, w.B2.PrevStateRoot
+	if deep {
+		if err := add(&w.B2.Header); err != nil {
+			return err
+		}
+		signer, prev, goodRoot = w.vals3, &w.B2.Header, w.rootB2
+	}
+	if prev.NextConsensus != signer.Hash {
+		o.Label(name + "/skip-validators-unknown")
+		return nil
+	}
+	mk := func(prev *block.Header, root util.Uint256) *block.Header {
+		nb := &block.Block{Header: block.Header{
+			PrevHash: prev.Hash(), Timestamp: prev.Timestamp + 1000, Nonce: uint64(cr.X), Index: prev.Index + 1,
+			NextConsensus: signer.Hash, StateRootEnabled: true, PrevStateRoot: root,
+		}}
+		sign(nb, signer)
+		return &nb.Header
+	}
+	wrong := mk(prev, flipBit256(goodRoot, cr.X))
+	if err := add(wrong); err != nil {
+		return err
+	}
+	top := wrong
+	for i := 1; i < ahead; i++ {
+		top = mk(top, goodRoot)
+		if err := add(top); err != nil {
+			return err
+		}
+	}
+	prep := func() (*ck.Node, bool, error) {
+		n, err := w.startNode(0, true)
 		if err != nil {
 			return nil, false, err
 		}
-		h2 := &block.Block{Header: copyHeader(&w.B2.Header)}
-		h2.PrevStateRoot = flipBit256(h2.PrevStateRoot, cr.X)
-		sign(h2, w.vals2)
-		hh, err := decHeader(encHeader(&h2.Header), w.srih)
-		if err != nil {
-			n.Close()
-			return nil, false, err
+		cp := make([]*block.Header, len(hdrs))
+		for i, h := range hdrs {
+			if cp[i], err = decHeader(encHeader(h), w.srih); err != nil {
+				n.Close()
+				return nil, false, err
+			}
 		}
-		if err := n.BC.AddHeaders(hh); err != nil || n.BC.HeaderHeight() != w.N+2 {
+		if batch {
+			err = n.BC.AddHeaders(cp...)
+		} else {
+			for _, h := range cp {
+				if err = n.BC.AddHeaders(h); err != nil {
+					break
+				}
+			}
+		}
+		if err != nil || n.BC.HeaderHeight() != top.Index {
 			return n, false, nil
+		}
+		if deep {
+			blk, err := ck.DecodeBlock(w.Braw, w.srih)
+			if err != nil {
+				n.Close()
+				return nil, false, err
+			}
+			if err := n.BC.AddBlock(blk); err != nil {
+				n.Close()
+				return nil, false, fmt.Errorf("%s: the valid block B (its header and the matching header of B2 are on record) is refused: %v", name, err)
+			}
 		}
 		return n, true, nil
 	}
-	n, ok, err := prep(true)
+	n, ok, err := prep()
 	if err != nil {
 		return err
 	}
 	defer n.Close()
 	if !ok {
-		o.Label(name + "/second-header-refused")
+		o.Label(name + "/headers-refused")
 		return nil
 	}
 	before := takeSnap(n)
-	where := fmt.Sprintf("%s at height %d, %d pooled txs", name, w.N, len(before.mem))
-	blk, err := ck.DecodeBlock(w.Braw, w.srih)
+	rraw := w.Braw
+	if deep {
+		rraw = w.B2raw
+	}
+	where := fmt.Sprintf("%s at height %d (block under test %d, header height %d, wrong PrevStateRoot in header %d), %d pooled txs", name, w.N, before.bh+1, before.hh, wrong.Index, len(before.mem))
+	blk, err := ck.DecodeBlock(rraw, w.srih)
 	if err != nil {
 		return err
 	}
 	aerr := n.BC.AddBlock(blk)
 	if aerr == nil {
-		o.Label(name + "/accepted")
-		return nil
+		return fmt.Errorf("%s: the block was ACCEPTED although the recorded next header carries a different previous state root (%s vs %s produced)", where, wrong.PrevStateRoot.StringLE(), goodRoot.StringLE())
 	}
 	o.Label(name + "/rejected")
 	if d, _ := before.diff(takeSnap(n), nil); d != "" {
-		return fmt.Errorf("%s: B refused (%v) but %s", where, firstLine(aerr.Error()), d)
+		return fmt.Errorf("%s: refused (%v) but %s", where, firstLine(aerr.Error()), d)
 	}
 	raw, err := flushRaw(n)
 	if err != nil {
 		return err
 	}
-	t, ok, err := prep(true)
+	t, ok, err := prep()
 	if err != nil {
 		return err
 	}
 	defer t.Close()
 	if !ok {
-		return fmt.Errorf("harness: twin refused the header the node accepted")
+		return fmt.Errorf("harness: twin refused the headers the node accepted")
 	}
 	traw, err := flushRaw(t)
 	if err != nil {
@@ -93,15 +170,15 @@ func runNextHeaderMismatch(w *world, cr Corruption, o *vt.Obs) error {
 		}
 	}
 	if d := diffRaw(raw, traw, allow); d != "" {
-		return fmt.Errorf("%s: B refused (%v) but the backend after a flush differs from a twin that never saw B: %s", where, firstLine(aerr.Error()), d)
+		return fmt.Errorf("%s: refused (%v) but the backend after a flush differs from a twin that never saw the block: %s", where, firstLine(aerr.Error()), d)
 	}
 	// Submitting it again must give the same answer and still change nothing (in-memory state of the state module).
-	blk, _ = ck.DecodeBlock(w.Braw, w.srih)
+	blk, _ = ck.DecodeBlock(rraw, w.srih)
 	if err := n.BC.AddBlock(blk); err == nil {
-		return fmt.Errorf("%s: B refused the first time (%v), accepted the second time", where, firstLine(aerr.Error()))
+		return fmt.Errorf("%s: refused the first time (%v), accepted the second time", where, firstLine(aerr.Error()))
 	}
 	if d, _ := before.diff(takeSnap(n), nil); d != "" {
-		return fmt.Errorf("%s: B refused twice but %s", where, d)
+		return fmt.Errorf("%s: refused twice but %s", where, d)
 	}
 	if err := n.Restart(); err != nil {
 		return fmt.Errorf("%s: restart after the refusal failed: %v", where, err)
